@@ -345,11 +345,15 @@ def show_model(stream: Stream, term: str, scratch: Path) -> str:
 # known findings
 # --------------------------------------------------------------------------
 def load_known(pid: str):
+    out = []
     p = VERIF / "known_findings.json"
-    if not p.exists():
-        return []
-    return [f for f in json.loads(p.read_text()).get("findings", [])
-            if f.get("property") == pid]
+    if p.exists():
+        out += json.loads(p.read_text()).get("findings", [])
+    d = VERIF / "known_findings.d"
+    if d.is_dir():
+        for f in sorted(d.glob("*.json")):
+            out += json.loads(f.read_text()).get("findings", [])
+    return [f for f in out if f.get("property") == pid]
 
 
 # --------------------------------------------------------------------------
